@@ -337,10 +337,19 @@ type c16Config struct {
 	After  []c16Store `json:"after,omitempty"`
 }
 
+// a rule-level override handed to WithConfig
+type c16Override struct {
+	TTL     string    `json:"ttl,omitempty"`
+	Claims  []c16Tmpl `json:"claims,omitempty"`
+	HasTpl  bool      `json:"has_tpl,omitempty"`
+	Unknown string    `json:"unknown,omitempty"` // "" | header | signer | values : a member WithConfig does not accept
+}
+
 type c16Op struct {
-	Kind  string    `json:"op"` // exec | reload | jwks
-	Sub   string    `json:"sub,omitempty"`
-	Store *c16Store `json:"store,omitempty"`
+	Kind  string       `json:"op"` // exec | reload | jwks
+	Sub   string       `json:"sub,omitempty"`
+	Ov    *c16Override `json:"override,omitempty"` // exec on prototype.WithConfig(override) instead of the prototype
+	Store *c16Store    `json:"store,omitempty"`
 }
 
 type c16Case struct {
@@ -1026,7 +1035,30 @@ func c16TTL(cfg c16Config) time.Duration {
 	return d
 }
 
-func (s *c16Sys) exec(cfg c16Config, sub string, jtis map[string]int) (obs c16OpObs) {
+func c16OverrideRaw(ov c16Override) map[string]any {
+	raw := map[string]any{}
+
+	if ov.TTL != "" {
+		raw["ttl"] = ov.TTL
+	}
+
+	if ov.HasTpl {
+		raw["claims"] = c16TemplateText(ov.Claims)
+	}
+
+	switch ov.Unknown {
+	case "header":
+		raw["header"] = map[string]any{"name": "X-Other", "scheme": "Other"}
+	case "signer":
+		raw["signer"] = map[string]any{"name": "someone-else"}
+	case "values":
+		raw["values"] = map[string]any{"a": "b"}
+	}
+
+	return raw
+}
+
+func (s *c16Sys) exec(cfg c16Config, sub string, ov *c16Override, jtis map[string]int) (obs c16OpObs) {
 	defer func() {
 		if r := recover(); r != nil {
 			obs = c16OpObs{Kind: "panic", Note: fmt.Sprint(r)}
@@ -1038,22 +1070,52 @@ func (s *c16Sys) exec(cfg c16Config, sub string, jtis map[string]int) (obs c16Op
 		ctx = cache.WithContext(ctx, s.cch)
 	}
 
+	// the finalizer the rule uses: the catalogue one, or a variant of it created by the real WithConfig
+	var fin Finalizer = s.fin
+
+	ttl := c16TTL(cfg)
+
+	if ov != nil {
+		variant, err := s.fin.WithConfig(c16OverrideRaw(*ov))
+		if err != nil {
+			return c16OpObs{Kind: "err", Note: "WithConfig: " + err.Error()}
+		}
+
+		fin = variant
+
+		if ov.TTL != "" {
+			ttl, _ = time.ParseDuration(ov.TTL)
+		}
+	}
+
 	rc := &c16ReqCtx{ctx: ctx, headers: map[string]string{}}
 	before := len(jtis)
 	t0 := time.Now().UnixNano()
-	err := s.fin.Execute(rc, &subject.Subject{ID: sub, Attributes: map[string]any{"group": "users"}})
+	err := fin.Execute(rc, &subject.Subject{ID: sub, Attributes: map[string]any{"group": "users"}})
 	t1 := time.Now().UnixNano()
 
 	if err != nil {
 		return c16OpObs{Kind: "err", Note: err.Error(), T0: t0, T1: t1}
 	}
 
+	// the header is the catalogue finalizer's, also for variants; anything else shows up in the observed typ
+	wrongHeader := ""
+
 	val, ok := rc.headers[s.hdr]
 	if !ok || len(rc.headers) != 1 {
-		return c16OpObs{Kind: "err", Note: "no upstream header " + s.hdr, T0: t0, T1: t1}
+		for name, v := range rc.headers {
+			wrongHeader, val = name, v
+		}
+
+		if len(rc.headers) != 1 {
+			return c16OpObs{Kind: "err", Note: "no upstream header " + s.hdr, T0: t0, T1: t1}
+		}
 	}
 
 	scheme, tok, _ := strings.Cut(val, " ")
+	if want := map[bool]string{true: "Bearer", false: "Tok"}[cfg.Header == ""]; scheme != want {
+		wrongHeader += "/" + scheme
+	}
 	body, code := s.fetchJWKS()
 
 	if code != http.StatusOK {
@@ -1064,12 +1126,16 @@ func (s *c16Sys) exec(cfg c16Config, sub string, jtis map[string]int) (obs c16Op
 	t.Header = s.hdr + "/" + scheme
 	t.Fresh = len(jtis) > before
 
+	if wrongHeader != "" {
+		t.Typ += "+upstream-header:" + wrongHeader
+	}
+
 	// the instant Sign read, as far as the token tells: iat, and from exp whether now+ttl crossed a second boundary
 	iat, _ := c16ClaimInt(t, "iat")
 	exp, _ := c16ClaimInt(t, "exp")
 	t.Now = iat * 1_000_000_000
 
-	if exp-iat != int64(c16TTL(cfg)/time.Second) {
+	if exp-iat != int64(ttl/time.Second) {
 		t.Now += 999_999_999
 	}
 
@@ -1119,7 +1185,7 @@ func c16Run(pki *c16PKI, dir string, c c16Case) c16Obs {
 	for _, op := range c.Ops {
 		switch op.Kind {
 		case "exec":
-			obs.Ops = append(obs.Ops, sys.exec(c.Cfg, op.Sub, jtis))
+			obs.Ops = append(obs.Ops, sys.exec(c.Cfg, op.Sub, op.Ov, jtis))
 		case "reload":
 			obs.Ops = append(obs.Ops, sys.reload(*op.Store))
 		default:
@@ -1194,6 +1260,27 @@ func (p *c16PKI) coqConfig(cfg c16Config) string {
 		vf.CoqListOf(cfg.Before, p.coqFile), vf.CoqListOf(cfg.After, p.coqFile))
 }
 
+func c16CoqOverride(ov *c16Override) string {
+	if ov == nil {
+		return "None"
+	}
+
+	ttl := "None"
+	if ov.TTL != "" {
+		d, _ := time.ParseDuration(ov.TTL)
+		ttl = "(Some " + vf.CoqZ(int64(d)) + ")"
+	}
+
+	claims := "None"
+	if ov.HasTpl {
+		claims = "(Some " + vf.CoqListOf(ov.Claims, func(c c16Tmpl) string {
+			return vf.CoqPair(vf.CoqStr(c.Name), c16CoqVal(c.Kind, c.Val))
+		}) + ")"
+	}
+
+	return "(Some " + vf.CoqApp("OV", ttl, claims, vf.CoqBool(ov.Unknown != "")) + ")"
+}
+
 func (p *c16PKI) coqToken(t *c16Token) string {
 	key := "(Priv " + p.coqKey(t.Signer) + ")"
 
@@ -1234,7 +1321,7 @@ func (p *c16PKI) coqCase(c c16Case, o c16Obs) string {
 				times[i] = vf.CoqPair(vf.CoqZ(oo.T0), vf.CoqZ(oo.T1))
 			}
 
-			ops[i] = vf.CoqApp("OExec", vf.CoqStr(op.Sub), vf.CoqZ(now))
+			ops[i] = vf.CoqApp("OExec", c16CoqOverride(op.Ov), vf.CoqStr(op.Sub), vf.CoqZ(now))
 		case "reload":
 			ops[i] = "(OReload " + p.coqFile(*op.Store) + ")"
 		default:
@@ -1500,6 +1587,39 @@ func c16GenTmpl(r *vf.Rand) []c16Tmpl {
 	return out
 }
 
+// a rule-level override: every subset of {ttl, claims}, the empty one, and (malformed share) members
+// WithConfig must refuse or a ttl that is not above one second
+func c16GenOverride(r *vf.Rand, cfg c16Config, malformed bool) *c16Override {
+	ov := &c16Override{}
+
+	if r.Chance(50) {
+		if cfg.Cache {
+			ov.TTL = vf.Pick(r, []string{"30s", "65s", "3m", "2s", "4500ms", "90500ms"}) // never close to the cache leeway + run time
+		} else {
+			ov.TTL = vf.Pick(r, []string{"30s", "1001ms", "2500ms", "7s", "5m", "1h", "90500ms"})
+		}
+
+		if ov.TTL == "30s" && cfg.Cache {
+			ov.TTL = "2m"
+		}
+	}
+
+	if r.Chance(50) {
+		ov.HasTpl = true
+		ov.Claims = c16GenTmpl(r)
+	}
+
+	if malformed && r.Chance(30) {
+		if r.Bool() {
+			ov.Unknown = vf.Pick(r, []string{"header", "signer", "values"})
+		} else {
+			ov.TTL = vf.Pick(r, []string{"1s", "500ms"})
+		}
+	}
+
+	return ov
+}
+
 func c16StoreKids(pki *c16PKI, s c16Store) []string {
 	var out []string
 
@@ -1586,7 +1706,12 @@ func c16Gen(pki *c16PKI, r *vf.Rand, malformed bool) c16Case {
 	for i := 0; i < nops; i++ {
 		switch x := r.Intn(100); {
 		case x < 50:
-			c.Ops = append(c.Ops, c16Op{Kind: "exec", Sub: vf.Pick(r, c16Subjects[:2+r.Intn(3)])})
+			op := c16Op{Kind: "exec", Sub: vf.Pick(r, c16Subjects[:2+r.Intn(3)])}
+			if r.Chance(40) {
+				op.Ov = c16GenOverride(r, c.Cfg, malformed)
+			}
+
+			c.Ops = append(c.Ops, op)
 		case x < 78:
 			next := c16NextStore(r, cur, malformed && r.Chance(50))
 			c.Ops = append(c.Ops, c16Op{Kind: "reload", Store: &next})
@@ -1665,6 +1790,38 @@ func c16Corpus() []c16Case {
 			}},
 			Ops: []c16Op{{Kind: "exec", Sub: "alice"}, {Kind: "jwks"}},
 		},
+		// rule-level variants of a catalogue finalizer with a non-default ttl, a template and a custom header:
+		// what the rule does not give stays the catalogue's (seeded change C16-2: a claims-only override fell back to 5m)
+		{
+			Cfg: c16Config{
+				Name: "verif-issuer", TTL: "30s", HasTpl: true, Header: "X-Token",
+				Claims: []c16Tmpl{{Name: "aud", Kind: "str", Val: "catalogue"}, {Name: "who", Kind: "subj"}},
+			},
+			Store: one(ec[0], "key1"),
+			Ops: []c16Op{
+				{Kind: "exec", Sub: "alice"},
+				{Kind: "exec", Sub: "alice", Ov: &c16Override{HasTpl: true, Claims: []c16Tmpl{{Name: "scope", Kind: "str", Val: "read"}, {Name: "sub", Kind: "str", Val: "admin"}}}},
+				{Kind: "exec", Sub: "alice", Ov: &c16Override{TTL: "2m"}},
+				{Kind: "exec", Sub: "alice", Ov: &c16Override{TTL: "1500ms", HasTpl: true, Claims: []c16Tmpl{}}},
+				{Kind: "exec", Sub: "alice", Ov: &c16Override{}},
+				{Kind: "exec", Sub: "alice", Ov: &c16Override{Unknown: "header"}},
+				{Kind: "exec", Sub: "alice", Ov: &c16Override{TTL: "1s"}},
+				{Kind: "exec", Sub: "alice"},
+			},
+		},
+		// the same with a token cache: prototype and variants do not share tokens unless ttl and template agree
+		{
+			Cfg:   c16Config{TTL: "70s", Cache: true, HasTpl: true, Claims: []c16Tmpl{{Name: "aud", Kind: "str", Val: "catalogue"}}},
+			Store: one(ec[0], "key1"),
+			Ops: []c16Op{
+				{Kind: "exec", Sub: "alice"},
+				{Kind: "exec", Sub: "alice", Ov: &c16Override{HasTpl: true, Claims: []c16Tmpl{{Name: "aud", Kind: "str", Val: "rule"}}}},
+				{Kind: "exec", Sub: "alice", Ov: &c16Override{TTL: "70s"}},
+				{Kind: "exec", Sub: "alice", Ov: &c16Override{TTL: "2m"}},
+				{Kind: "exec", Sub: "alice", Ov: &c16Override{HasTpl: true, Claims: []c16Tmpl{{Name: "aud", Kind: "str", Val: "rule"}}}},
+				{Kind: "exec", Sub: "alice"},
+			},
+		},
 		// the key id must match exactly: an earlier entry whose id merely ends with / starts with the configured one
 		{
 			Cfg: c16Config{KeyID: "key1", TTL: "2s"},
@@ -1701,6 +1858,21 @@ func c16Tags(c c16Case, o c16Obs) ([]string, bool) {
 		switch c.Ops[i].Kind {
 		case "exec":
 			tags = append(tags, "exec:"+oo.Kind)
+
+			if ov := c.Ops[i].Ov; ov != nil {
+				switch {
+				case ov.Unknown != "" || oo.Kind == "err":
+					tags = append(tags, "variant:refused")
+				case ov.TTL != "" && ov.HasTpl:
+					tags = append(tags, "variant:ttl+claims")
+				case ov.TTL != "":
+					tags = append(tags, "variant:ttl")
+				case ov.HasTpl:
+					tags = append(tags, "variant:claims")
+				default:
+					tags = append(tags, "variant:empty")
+				}
+			}
 
 			if oo.Token != nil {
 				tokens++
